@@ -333,6 +333,31 @@ namespace vh
                 if (s.has("ncode"))
                     o.num("ncode", s["ncode"].as_int());
                 o.num("tolq", static_cast<long long>(std::ceil(std::ldexp(tol, 20))));
+                if (s.get_int("near", 0) && s.has("expect"))
+                {
+                    // the same exact n = 1 case given to another eroder whose slope exponent is 1 + 2^-27 and whose
+                    // tolerance is 2^-40: how far BELOW the exact n = 1 solution its new elevation lies, in units
+                    // of 2^-40 (an exponent this close to one is still not one)
+                    const double nn = 1.0 + std::ldexp(1.0, -27), tt = std::ldexp(1.0, -40);
+                    std::vector<long long> dn(n, 0);
+                    std::string nthrew;
+                    try
+                    {
+                        fs::spl_eroder<fg_t> near_one(*h.fg, kv, m_exp, nn, tt);
+                        const auto& e2 = near_one.erode(elev, area, dt);
+                        for (size_t i = 0; i < n; ++i)
+                        {
+                            double hnear = elev_given.flat(i) - e2.flat(i);
+                            double d40 = std::ldexp(s["expect"][i].as_double() - hnear, 40);
+                            dn[i] = std::isfinite(d40) ? static_cast<long long>(std::max(-2.0e9, std::min(2.0e9, std::round(d40)))) : -2000000000;
+                        }
+                    }
+                    catch (const std::exception& ex)
+                    {
+                        nthrew = exc_kind(ex);
+                    }
+                    o.ints("dn40", dn).str("nthrew", nthrew);
+                }
             }
             emit(o.done());
         }
